@@ -63,6 +63,10 @@ func ParseGroups(r io.Reader, cb func(name []byte, val int)) error {
 		}
 		cb(stacktrace, i)
 	}
+	// Scan stops silently on a read error or on a line that is too long
+	if err := scanner.Err(); err != nil {
+		return err
+	}
 	return nil
 }
 
